@@ -242,6 +242,8 @@ pub struct Env {
     pub nofile: Option<u64>,
     /// restrict monorail (and what it starts) to the first k CPUs (a small CI container)
     pub cpus: Option<usize>,
+    /// file name of the configuration in the repository root (default Monorail.json)
+    pub config_name: String,
 }
 
 impl Env {
@@ -268,6 +270,7 @@ impl Env {
             default_timeout: Duration::from_secs(120),
             nofile: None,
             cpus: None,
+            config_name: "Monorail.json".to_string(),
         }
     }
 
@@ -292,7 +295,7 @@ impl Env {
     }
 
     pub fn config_path(&self) -> PathBuf {
-        self.repo.join("Monorail.json")
+        self.repo.join(&self.config_name)
     }
 
     /// Write Monorail.json (ports of this case filled in) and create every target
@@ -341,11 +344,9 @@ impl Env {
     pub fn set_plan(&self, plan: &BTreeMap<(String, String), Behavior>) {
         let mut entries = Map::new();
         for ((exe, target), b) in plan {
-            let key = format!(
-                "{}|{}",
-                self.path(exe).display(),
-                self.path(target).display()
-            );
+            // (normalised: no doubled or trailing separators, as the helper sees its own paths)
+            let norm = |p: PathBuf| p.components().collect::<PathBuf>();
+            let key = format!("{}|{}", norm(self.path(exe)).display(), norm(self.path(target)).display());
             let mut m = Map::new();
             m.insert("exit".into(), json!(b.exit));
             m.insert("sleep_ms".into(), json!(b.sleep_ms));
